@@ -802,7 +802,8 @@ class Body:
             last = o.callee.split('::')[-1]
             owner = o.callee.split('::')[-2] if '::' in o.callee else ''
             tbl = {('Result', 'is_ok'): ('Ok', 'Err'), ('Result', 'is_err'): ('Err', 'Ok'),
-                   ('Option', 'is_some'): ('Some', 'None'), ('Option', 'is_none'): ('None', 'Some')}
+                   ('Option', 'is_some'): ('Some', 'None'), ('Option', 'is_none'): ('None', 'Some'),
+                   ('Poll', 'is_pending'): ('Pending', 'Ready'), ('Poll', 'is_ready'): ('Ready', 'Pending')}
             if (owner, last) in tbl:
                 variant_of_bool = tbl[(owner, last)]
                 o = o.args[0]
@@ -852,7 +853,17 @@ class Body:
                 res.setdefault(ob, set()).add(lab(0))
         else:
             res.setdefault(ob, set()).add('other')
-        return oo if via_try else o, res
+        out_o = oo if via_try else o
+        # look through `x.ok()` / `x.err()`: a switch on the Option stands for a switch on the Result x
+        if not via_try and out_o is not None and out_o.kind == 'call' and out_o.args and mapping is not None \
+                and re.search(r'(^|::)Result(<.*>)?::(ok|err)$', out_o.callee):
+            conv = {'ok': {'Some': 'Ok', 'None': 'Err'}, 'err': {'Some': 'Err', 'None': 'Ok'}}[out_o.callee.rsplit('::', 1)[-1]]
+            if all(l in conv for labs in res.values() for l in labs):
+                res = {tb: set(conv[l] for l in labs) for tb, labs in res.items()}
+                out_o = out_o.args[0]
+                while out_o.kind == 'ref' and not getattr(out_o, 'via', None):
+                    out_o = out_o.base
+        return out_o, res
 
     def switches(self):
         reach = self.reachable(0)
